@@ -44,10 +44,14 @@ def real(case):
         sys_err = os.dup(2)
         devnull = os.open(os.devnull, os.O_WRONLY)
         os.dup2(devnull, 2)                 # the drawing goes through an external program that talks on stderr
+        import tempfile
+        cwd = os.getcwd()
+        os.chdir(tempfile.gettempdir())     # ... and leaves Graph.gv / Graph.gv.pdf in the working directory
         try:
             for name in ("graphviz", "dot_bracket", "fcfs"):
                 call(lambda: getattr(b, name))
         finally:
+            os.chdir(cwd)
             os.dup2(sys_err, 2)
             os.close(devnull)
             os.close(sys_err)
